@@ -1263,8 +1263,10 @@ DEFAULT_PURE = {
     "<module::ModuleType as std::cmp::PartialEq>::ne": "ne",
     "encode::ascii_to_alphanumeric": None,
     "encode::ascii_to_digit": None,
-    "<usize as std::convert::From<bool>>::from": None,
-    "<u8 as std::convert::From<bool>>::from": None,
+    "std::convert::num::<impl std::convert::From<bool> for u8>::from": "from_bool",
+    "std::convert::num::<impl std::convert::From<bool> for u16>::from": "from_bool",
+    "std::convert::num::<impl std::convert::From<bool> for u32>::from": "from_bool",
+    "std::convert::num::<impl std::convert::From<bool> for usize>::from": "from_bool",
 }
 
 
